@@ -86,6 +86,9 @@ type access struct {
 	origin int
 	hb     []string
 	use    bool // a read whose value is used (anything but an operand of ==/!= nil)
+	// the value was copied into a local (`l := x.f`): lock states at the uses of that local
+	snap     bool
+	snapUses []state
 }
 
 type edge struct {
@@ -123,6 +126,23 @@ type unit struct {
 	spawns   []*spawn
 	valueRef bool
 	fn       *types.Func
+	exits    []state // lock state at every return / fall-off end (deferred unlocks applied)
+	ftype    *ast.FuncType
+}
+
+// paramCall: a call of a func-typed PARAMETER inside a declared function (`f()` in
+// `func (s *Scheduler) withLoaded(f func())`); litArg: a closure passed for that parameter.
+// solve() joins them: the closure runs at the callee's call site, under the callee's locks.
+type paramCall struct {
+	u   *unit
+	idx int
+	st  state
+}
+type litArg struct {
+	callee *unit
+	idx    int
+	lit    *unit
+	binds  map[string]string // caller expression -> callee parameter name
 }
 
 type analyzer struct {
@@ -144,6 +164,11 @@ type analyzer struct {
 	serveSp   *spawn
 	aliasRHS  map[*ast.SelectorExpr]bool
 	cleared   map[string]bool // classes a teardown function sets to nil (minus slice-like ones)
+	// net lock effect of declared functions (lock wrappers: `func (s *Scheduler) lockLoaded()`),
+	// from the previous pass over the package; keys in the callee's own names
+	summ       map[*types.Func]state
+	paramCalls []paramCall
+	litArgs    []litArg
 }
 
 func (a *analyzer) note(pos token.Pos, f string, args ...any) {
@@ -226,16 +251,25 @@ func main() {
 	conf := types.Config{Importer: &stubImporter{m: map[string]*types.Package{}, src: importer.ForCompiler(fset, "source", nil)}, Error: func(error) {}}
 	pkg, _ := conf.Check("github.com/ollama/ollama/server", fset, files, info)
 
-	a := &analyzer{fset: fset, info: info, pkg: pkg, byFunc: map[*types.Func]*unit{}, mutexF: map[string]bool{},
-		atomicF: map[string]bool{}, syncMapG: map[string]bool{}, mapCls: map[string]bool{}, fieldFn: map[string]*unit{},
-		spawnByNd: map[ast.Node]*spawn{}, litCount: map[string]int{}}
-	a.scanDecls(files)
-	a.scanAliases(files)
-	a.scanCleared(files)
-	for len(a.queue) > 0 {
-		u := a.queue[0]
-		a.queue = a.queue[1:]
-		a.walkUnit(u)
+	var a *analyzer
+	var summ map[*types.Func]state
+	for pass := 0; pass < 5; pass++ {
+		a = &analyzer{fset: fset, info: info, pkg: pkg, byFunc: map[*types.Func]*unit{}, mutexF: map[string]bool{},
+			atomicF: map[string]bool{}, syncMapG: map[string]bool{}, mapCls: map[string]bool{}, fieldFn: map[string]*unit{},
+			spawnByNd: map[ast.Node]*spawn{}, litCount: map[string]int{}, summ: summ}
+		a.scanDecls(files)
+		a.scanAliases(files)
+		a.scanCleared(files)
+		for len(a.queue) > 0 {
+			u := a.queue[0]
+			a.queue = a.queue[1:]
+			a.walkUnit(u)
+		}
+		ns := a.summaries()
+		if sameSumm(ns, summ) {
+			break
+		}
+		summ = ns
 	}
 	res := a.solve()
 	if *jsonOut != "" {
@@ -319,6 +353,7 @@ func (a *analyzer) scanDecls(files []*ast.File) {
 					}
 				}
 				u.params = paramNames(d.Type)
+				u.ftype = d.Type
 				if fn, ok := a.info.Defs[d.Name].(*types.Func); ok {
 					u.fn = fn
 					a.byFunc[fn] = u
@@ -460,6 +495,10 @@ type walker struct {
 	loopEntry  []state
 	nilOperand map[*ast.SelectorExpr]bool
 	curNil     bool
+	snap       map[types.Object]*access // local holding a copy of a cleared field -> the read that made it
+	nilIdent   map[*ast.Ident]bool      // identifiers that are operands of ==/!= nil
+	deferUnl   map[lockKey]bool         // mutexes a `defer ...Unlock()` releases when the function returns
+	alias      map[types.Object]string  // local `r := runner` (pointer to a tracked struct): r is named runner
 }
 
 func (a *analyzer) prescanSpawns(u *unit) {
@@ -538,7 +577,8 @@ func (a *analyzer) walkUnit(u *unit) {
 	a.prescanSpawns(u)
 	w := &walker{a: a, u: u, st: newState(), fresh: map[types.Object]bool{}, origin: map[types.Object]int{},
 		holderVars: map[types.Object]bool{}, grChans: map[types.Object]bool{}, closeDone: map[string]bool{}, lastMapAcc: -1,
-		nilOperand: map[*ast.SelectorExpr]bool{}}
+		nilOperand: map[*ast.SelectorExpr]bool{}, deferUnl: map[lockKey]bool{}, alias: map[types.Object]string{},
+		snap: map[types.Object]*access{}, nilIdent: map[*ast.Ident]bool{}}
 	for _, sp := range u.spawns {
 		w.st.added[lockKey(fmt.Sprintf("pre:%d@", sp.id))] = true
 	}
@@ -552,7 +592,67 @@ func (a *analyzer) walkUnit(u *unit) {
 			}
 		}
 	}
-	w.stmts(u.body.List)
+	if !w.stmts(u.body.List) {
+		w.exit()
+	}
+}
+
+// exit records the lock state at a return (or at the end of the body), deferred unlocks applied
+func (w *walker) exit() {
+	st := w.st.clone()
+	for k := range w.deferUnl {
+		if st.added[k] {
+			delete(st.added, k)
+		} else {
+			st.removed[k] = true
+		}
+	}
+	w.u.exits = append(w.u.exits, st)
+}
+
+func isLockKey(k lockKey) bool {
+	c, _ := keyBase(k)
+	return !strings.Contains(c, ":")
+}
+
+// summaries: net lock effect of every declared function that returns holding a mutex it took,
+// or having released one it did not take (lock wrappers)
+func (a *analyzer) summaries() map[*types.Func]state {
+	out := map[*types.Func]state{}
+	for _, u := range a.units {
+		if u.isLit || u.fn == nil || len(u.exits) == 0 {
+			continue
+		}
+		m := merge(u.exits)
+		sm := newState()
+		for k := range m.added {
+			if isLockKey(k) {
+				sm.added[k] = true
+			}
+		}
+		for k := range m.removed {
+			if isLockKey(k) {
+				sm.removed[k] = true
+			}
+		}
+		if len(sm.added)+len(sm.removed) > 0 {
+			out[u.fn] = sm
+		}
+	}
+	return out
+}
+
+func sameSumm(x, y map[*types.Func]state) bool {
+	if len(x) != len(y) {
+		return false
+	}
+	for f, sx := range x {
+		sy, ok := y[f]
+		if !ok || !sameSet(sx.added, sy.added) || !sameSet(sx.removed, sy.removed) {
+			return false
+		}
+	}
+	return true
 }
 
 func (w *walker) kill(n ast.Node) {
@@ -740,6 +840,7 @@ func (w *walker) stmt(s ast.Stmt) bool {
 		for _, r := range s.Results {
 			w.expr(r)
 		}
+		w.exit()
 		return true
 	case *ast.BranchStmt:
 		if s.Tok == token.FALLTHROUGH {
@@ -835,7 +936,18 @@ func (w *walker) nilChecks(cond ast.Expr) (ne, eq []string) {
 		if !w.a.cleared[namedOf(sel.Recv())+"."+se.Sel.Name] {
 			return ""
 		}
-		return types.ExprString(se.X)
+		return w.canon(se.X)
+	}
+	fieldBase := base
+	base = func(e ast.Expr) string {
+		// a local copy of a cleared field, made under the object's lock which is still held
+		if id, ok := unparen(e).(*ast.Ident); ok {
+			if ac := w.snap[w.obj(id)]; ac != nil && w.st.added[lockKey("snap:"+id.Name+"@"+ac.base)] {
+				return ac.base
+			}
+			return ""
+		}
+		return fieldBase(e)
 	}
 	var walkNe, walkEq func(e ast.Expr)
 	walkNe = func(e ast.Expr) {
@@ -901,6 +1013,56 @@ func (w *walker) obj(id *ast.Ident) types.Object {
 	return w.a.info.Uses[id]
 }
 
+// canon prints an expression with a local alias at its root replaced by the variable it stands
+// for (`r := runner` ... `r.refMu.Lock()` names the mutex of `runner`)
+func (w *walker) canon(e ast.Expr) string {
+	s := types.ExprString(e)
+	x := unparen(e)
+	for {
+		switch y := x.(type) {
+		case *ast.SelectorExpr:
+			x = unparen(y.X)
+			continue
+		case *ast.StarExpr:
+			x = unparen(y.X)
+			continue
+		}
+		break
+	}
+	if id, ok := x.(*ast.Ident); ok && w.alias != nil {
+		if c, ok := w.alias[w.obj(id)]; ok && (s == id.Name || strings.HasPrefix(s, id.Name+".")) {
+			return c + s[len(id.Name):]
+		}
+	}
+	return s
+}
+
+// clearedField: x.f with f a direct field that a teardown function sets to nil
+func (w *walker) clearedField(se *ast.SelectorExpr) bool {
+	sel := w.a.info.Selections[se]
+	if sel == nil || sel.Kind() != types.FieldVal || len(sel.Index()) != 1 {
+		return false
+	}
+	return w.a.cleared[namedOf(sel.Recv())+"."+se.Sel.Name]
+}
+
+// snapUse: a local holding a copy of a cleared field is used here (not just compared with nil)
+func (w *walker) snapUse(id *ast.Ident) {
+	if w.nilIdent[id] {
+		return
+	}
+	if ac := w.snap[w.obj(id)]; ac != nil {
+		ac.snapUses = append(ac.snapUses, w.st.clone())
+	}
+}
+
+func (w *walker) canonName(o types.Object) string {
+	if c, ok := w.alias[o]; ok {
+		return c
+	}
+	return o.Name()
+}
+
 func unparen(e ast.Expr) ast.Expr {
 	for {
 		p, ok := e.(*ast.ParenExpr)
@@ -941,16 +1103,49 @@ func (w *walker) assign(s *ast.AssignStmt) {
 		obj                   types.Object
 		fresh, holder, grChan bool
 		origin                int
+		alias                 string
+		aliasOf               types.Object
+		snap                  *access
 	}
 	var pends []pend
 	for i := range s.Rhs {
 		w.lastMapAcc = -1
+		// `l := x.f` with f a field the teardown clears: the read is a copy; what matters is where l is used
+		var snapSel *ast.SelectorExpr
+		if len(s.Rhs) == len(s.Lhs) {
+			if id, ok := s.Lhs[i].(*ast.Ident); ok && id.Name != "_" && !w.a.trackedGlobal(w.obj(id)) {
+				if se, ok := unparen(s.Rhs[i]).(*ast.SelectorExpr); ok && w.clearedField(se) && !w.nilOperand[se] {
+					snapSel = se
+					w.nilOperand[se] = true
+				}
+			}
+		}
+		before := len(w.u.accesses)
 		w.expr(s.Rhs[i])
+		var snapAcc *access
+		if snapSel != nil {
+			delete(w.nilOperand, snapSel)
+			for _, ac := range w.u.accesses[before:] {
+				if w.a.cleared[ac.cls] && !ac.use {
+					ac.snap = true
+					snapAcc = ac
+				}
+			}
+		}
 		if len(s.Rhs) == len(s.Lhs) || i == 0 {
 			if id, ok := s.Lhs[i].(*ast.Ident); ok && id.Name != "_" {
-				p := pend{obj: w.obj(id), origin: -1}
+				p := pend{obj: w.obj(id), origin: -1, snap: snapAcc}
 				r := unparen(rhsFor(i))
 				p.fresh = w.isFreshExpr(r)
+				if rid, ok := r.(*ast.Ident); ok && s.Tok == token.DEFINE {
+					if ro := w.obj(rid); ro != nil && ro != p.obj {
+						if _, isVar := ro.(*types.Var); isVar && trackedTypes[namedOf(ro.Type())] {
+							if _, ptr := ro.Type().(*types.Pointer); ptr {
+								p.alias, p.aliasOf = w.canonName(ro), ro
+							}
+						}
+					}
+				}
 				if ix, ok := r.(*ast.IndexExpr); ok && w.lastMapAcc >= 0 {
 					_ = ix
 					p.origin = w.lastMapAcc
@@ -982,13 +1177,39 @@ func (w *walker) assign(s *ast.AssignStmt) {
 		delete(w.fresh, p.obj)
 		delete(w.origin, p.obj)
 		delete(w.holderVars, p.obj)
+		delete(w.alias, p.obj)
+		if old := w.snap[p.obj]; old != nil {
+			delete(w.snap, p.obj)
+			for k := range w.st.added {
+				if c, _ := keyBase(k); c == "snap:"+p.obj.Name() {
+					delete(w.st.added, k)
+				}
+			}
+		}
+		if p.snap != nil {
+			w.snap[p.obj] = p.snap
+			w.st.added[lockKey("snap:"+p.obj.Name()+"@"+p.snap.base)] = true
+		}
+		if p.alias != "" {
+			// the alias inherits what is known about the variable it copies
+			w.alias[p.obj] = p.alias
+			if w.fresh[p.aliasOf] {
+				p.fresh = true
+			}
+			if o, ok := w.origin[p.aliasOf]; ok && p.origin < 0 {
+				w.origin[p.obj] = o
+			}
+			if w.holderVars[p.aliasOf] {
+				p.holder = true
+			}
+		}
 		if p.fresh {
 			w.fresh[p.obj] = true
 		}
 		if p.origin >= 0 {
 			w.origin[p.obj] = p.origin
 			if w.u.accesses[p.origin].cls == registryClass {
-				w.st.added[lockKey("live:@"+p.obj.Name())] = true
+				w.st.added[lockKey("live:@"+w.canonName(p.obj))] = true
 			}
 		}
 		if p.holder {
@@ -1010,7 +1231,14 @@ func (w *walker) lhs(e ast.Expr) {
 			w.record(e.Pos(), "global."+e.Name, "", "write", "", nil, false, false)
 			return
 		}
-		// re-binding a variable invalidates locks named through it
+		// re-binding a variable invalidates locks named through it, and aliases of it
+		if o := w.obj(e); o != nil {
+			for ao, c := range w.alias {
+				if c == e.Name || strings.HasPrefix(c, e.Name+".") {
+					delete(w.alias, ao)
+				}
+			}
+		}
 		for k := range w.st.added {
 			base := string(k)[strings.Index(string(k), "@")+1:]
 			if base == e.Name || strings.HasPrefix(base, e.Name+".") {
@@ -1151,14 +1379,15 @@ func (w *walker) selector(e *ast.SelectorExpr, mode string) {
 				baseObj = w.obj(id)
 			}
 			w.curNil = w.nilOperand[e]
-			w.record(e.Pos(), cls, owner, kind, types.ExprString(e.X), baseObj, false, w.a.atomicF[cls] && mode == "atomic")
+			w.record(e.Pos(), cls, owner, kind, w.canon(e.X), baseObj, false, w.a.atomicF[cls] && mode == "atomic")
 			w.curNil = false
 			break
 		}
 		t = f.Type()
 	}
 	// the base: an identifier used as a selector base does not escape
-	if _, ok := unparen(e.X).(*ast.Ident); ok {
+	if id, ok := unparen(e.X).(*ast.Ident); ok {
+		w.snapUse(id)
 		return
 	}
 	w.expr(e.X)
@@ -1208,6 +1437,7 @@ func (w *walker) expr(e ast.Expr) {
 		if w.fresh[o] {
 			delete(w.fresh, o) // escapes
 		}
+		w.snapUse(e)
 		if w.a.trackedGlobal(o) {
 			k := "read"
 			if w.a.mapCls["global."+e.Name] {
@@ -1263,6 +1493,12 @@ func (w *walker) expr(e ast.Expr) {
 			if se, ok := unparen(e.Y).(*ast.SelectorExpr); ok && isNilIdent(e.X) {
 				w.nilOperand[se] = true
 			}
+			if id, ok := unparen(e.X).(*ast.Ident); ok && isNilIdent(e.Y) {
+				w.nilIdent[id] = true
+			}
+			if id, ok := unparen(e.Y).(*ast.Ident); ok && isNilIdent(e.X) {
+				w.nilIdent[id] = true
+			}
 		}
 		w.expr(e.X)
 		w.expr(e.Y)
@@ -1309,7 +1545,7 @@ func (w *walker) lockKeyOf(x ast.Expr) (lockKey, bool) {
 	if !w.a.mutexF[cls] {
 		return "", false
 	}
-	base := types.ExprString(se.X)
+	base := w.canon(se.X)
 	if singletonTypes[owner] {
 		base = ""
 	}
@@ -1331,37 +1567,88 @@ func (w *walker) lockOp(name string, x ast.Expr) bool {
 		return false
 	}
 	if name == "Lock" || name == "RLock" {
-		w.st.added[k] = true
-		delete(w.st.removed, k)
+		w.acquire(k)
 	} else {
-		if w.st.added[k] {
-			delete(w.st.added, k)
-		} else {
-			w.st.removed[k] = true
+		w.release(k)
+	}
+	return true
+}
+
+func (w *walker) acquire(k lockKey) {
+	w.st.added[k] = true
+	delete(w.st.removed, k)
+}
+
+func (w *walker) release(k lockKey) {
+	if w.st.added[k] {
+		delete(w.st.added, k)
+	} else {
+		w.st.removed[k] = true
+	}
+	cls, base := keyBase(k)
+	for x := range w.st.added {
+		xc, xb := keyBase(x)
+		// pointers found in the registry stop being live when the registry lock goes;
+		// a nil re-check stops counting when the object's lock goes
+		if (cls == registryLock && xc == "live:") || (cls == objectLock && (xc == "valid:" || strings.HasPrefix(xc, "snap:")) && xb == base) {
+			delete(w.st.added, x)
 		}
-		cls, base := keyBase(k)
-		for x := range w.st.added {
-			xc, xb := keyBase(x)
-			// pointers found in the registry stop being live when the registry lock goes;
-			// a nil re-check stops counting when the object's lock goes
-			if (cls == registryLock && xc == "live:") || (cls == objectLock && xc == "valid:" && xb == base) {
-				delete(w.st.added, x)
+	}
+}
+
+// calleeKey renames a lock key of a callee (its receiver / parameter names) into the caller's
+// expressions; binds: caller expression -> callee name
+func calleeKey(k lockKey, binds map[string]string) (lockKey, bool) {
+	cls, base := keyBase(k)
+	if base == "" {
+		return k, true
+	}
+	for from, to := range binds {
+		if base == to {
+			return lockKey(cls + "@" + from), true
+		}
+		if strings.HasPrefix(base, to+".") {
+			return lockKey(cls + "@" + from + base[len(to):]), true
+		}
+	}
+	return "", false
+}
+
+// applySummary: the callee returns holding / having released these mutexes
+func (w *walker) applySummary(u *unit, binds map[string]string, mode string) {
+	sm, ok := w.a.summ[u.fn]
+	if !ok || u.fn == nil {
+		return
+	}
+	for k := range sm.removed {
+		if ck, ok := calleeKey(k, binds); ok {
+			if mode == "deferred" {
+				w.deferUnl[ck] = true
+			} else if mode == "call" {
+				w.release(ck)
 			}
 		}
 	}
-	return true
+	if mode != "call" {
+		return
+	}
+	for k := range sm.added {
+		if ck, ok := calleeKey(k, binds); ok {
+			w.acquire(ck)
+		}
+	}
 }
 
 func (w *walker) bindsFor(callee *unit, recv ast.Expr, args []ast.Expr) map[string]string {
 	b := map[string]string{}
 	if recv != nil && callee.recvName != "" {
-		b[types.ExprString(recv)] = callee.recvName
+		b[w.canon(recv)] = callee.recvName
 	}
 	for i, x := range args {
 		if i < len(callee.params) && callee.params[i] != "_" {
 			switch unparen(x).(type) {
 			case *ast.Ident, *ast.SelectorExpr:
-				b[types.ExprString(x)] = callee.params[i]
+				b[w.canon(x)] = callee.params[i]
 			}
 		}
 	}
@@ -1401,9 +1688,13 @@ func (w *walker) call(e *ast.CallExpr, mode string) {
 			}
 			w.args(e.Args)
 		case *types.Func:
-			w.args(e.Args)
 			if u := w.a.byFunc[o]; u != nil {
-				w.addEdge(u, mode, w.bindsFor(u, nil, e.Args), w.spawnOf(mode, e), nil)
+				b := w.bindsFor(u, nil, e.Args)
+				w.argsTo(u, e.Args, b, mode)
+				w.addEdge(u, mode, b, w.spawnOf(mode, e), nil)
+				w.applySummary(u, b, mode)
+			} else {
+				w.args(e.Args)
 			}
 		case *types.TypeName:
 			// conversion T(x): if T has methods (sort.Interface ...) the value is about to be
@@ -1417,6 +1708,15 @@ func (w *walker) call(e *ast.CallExpr, mode string) {
 				}
 			}
 		default:
+			if v, ok := o.(*types.Var); ok && mode == "call" && !w.u.isLit {
+				if _, isSig := v.Type().Underlying().(*types.Signature); isSig {
+					for i, pn := range w.u.params {
+						if pn == f.Name && w.isParam(v) {
+							w.a.paramCalls = append(w.a.paramCalls, paramCall{w.u, i, w.st.clone()})
+						}
+					}
+				}
+			}
 			w.expr(f)
 			w.args(e.Args)
 		}
@@ -1447,7 +1747,7 @@ func (w *walker) call(e *ast.CallExpr, mode string) {
 					} else {
 						w.expr(xs.X)
 					}
-					w.record(xs.Pos(), cls, owner, kind, types.ExprString(xs.X), baseObj, false, true)
+					w.record(xs.Pos(), cls, owner, kind, w.canon(xs.X), baseObj, false, true)
 					w.args(e.Args)
 					return
 				}
@@ -1485,8 +1785,10 @@ func (w *walker) call(e *ast.CallExpr, mode string) {
 			if fn, ok := sel.Obj().(*types.Func); ok {
 				if u := w.a.byFunc[fn]; u != nil {
 					w.expr(f.X)
-					w.args(e.Args)
-					w.addEdge(u, mode, w.bindsFor(u, f.X, e.Args), w.spawnOf(mode, e), nil)
+					b := w.bindsFor(u, f.X, e.Args)
+					w.argsTo(u, e.Args, b, mode)
+					w.addEdge(u, mode, b, w.spawnOf(mode, e), nil)
+					w.applySummary(u, b, mode)
 					return
 				}
 			}
@@ -1510,6 +1812,36 @@ func (w *walker) call(e *ast.CallExpr, mode string) {
 		w.expr(fun)
 		w.args(e.Args)
 	}
+}
+
+// argsTo: arguments of a call of a function declared in the package.  A closure passed for a
+// func-typed parameter runs where the callee calls that parameter (solve() adds the edge); if the
+// callee never calls it directly it stays a callback on a thread of its own.
+func (w *walker) argsTo(callee *unit, args []ast.Expr, binds map[string]string, mode string) {
+	for i, x := range args {
+		if fl, ok := unparen(x).(*ast.FuncLit); ok && mode == "call" && !callee.isLit && i < len(callee.params) {
+			lu := w.closure(fl, "param", nil)
+			w.a.litArgs = append(w.a.litArgs, litArg{callee, i, lu, binds})
+			continue
+		}
+		w.expr(x)
+	}
+}
+
+func (w *walker) isParam(v *types.Var) bool {
+	if w.u.fn == nil {
+		return false
+	}
+	sig, ok := w.u.fn.Type().(*types.Signature)
+	if !ok {
+		return false
+	}
+	for i := 0; i < sig.Params().Len(); i++ {
+		if sig.Params().At(i) == v {
+			return true
+		}
+	}
+	return false
 }
 
 // argsExt: arguments of a call into another package.  `&x` of a fresh local handed to such a
@@ -1629,7 +1961,8 @@ func (w *walker) deferStmt(s *ast.DeferStmt) {
 	if se, ok := s.Call.Fun.(*ast.SelectorExpr); ok {
 		switch se.Sel.Name {
 		case "Unlock", "RUnlock":
-			if _, ok := w.lockKeyOf(se.X); ok {
+			if k, ok := w.lockKeyOf(se.X); ok {
+				w.deferUnl[k] = true
 				return // held until the function returns
 			}
 		}
